@@ -22,7 +22,7 @@ RULE = ('Populations of 3-8 tasks in a WBS (depth <= 3) whose attributes name / 
         'fixed population.  Non-trivial = query selecting a proper non-empty subset with >= 1 suffix filter on an attribute '
         'that is absent or None for >= 1 task; distinct = distinct case.')
 ASSUMPTIONS = ['comparison filters only between values of one type; _is_none_/_is_not_none_ only with True; regexes only on string attributes',
-               'callable and keyword filters are not combined']
+               'attribute names equal to parameter names of the query call itself (key, self) are not used as plain keywords']
 
 POOL = {
     'name': ['alpha', 'beta', 'Alpha 2', 'gamma ray', None],
@@ -36,11 +36,15 @@ POOL = {
     'days_in_status': [5, 9, None, '<absent>'],
     'opt_in': [True, False, '<absent>'],
     'looks_like_x': ['alpha', 'beta', None, '<absent>'],
+    't': [1, 2, None, '<absent>'],             # a one-letter attribute name
+    # declared by the user's Task subclass (class-level default 'B'; some instances override it) - plain Tasks lack it
+    'grade': ['A', 'B', 'C', '<absent>'],
 }
-CUSTOM = ('tag', 'prio', 'days_in_status', 'opt_in', 'looks_like_x')
+CUSTOM = ('tag', 'prio', 'days_in_status', 'opt_in', 'looks_like_x', 't', 'grade')
+SUBCLASS_DEFAULTS = {'grade': 'B'}
 REGEX = ['^a', 'a$', 'l', '[A-Z]', 'e.a', ' ', '^$', 'b|r']
-STRINGY = ('name', 'resource', 'tag', 'looks_like_x')
-ORDERED = ('id', 'parent_id', 'name', 'resource', 'estimate', 'spent', 'tag', 'prio', 'days_in_status')
+STRINGY = ('name', 'resource', 'tag', 'looks_like_x', 'grade')
+ORDERED = ('id', 'parent_id', 'name', 'resource', 'estimate', 'spent', 'tag', 'prio', 'days_in_status', 't', 'grade', 'weight')
 SUFFIXES = ['', '_in_', '_not_in_', '_is_none_', '_is_not_none_', '_ne_', '_lt_', '_le_', '_gt_', '_ge_', '_like_', '_not_like_']
 PREDICATES = {
     'even-id': lambda t: t.id % 2 == 0,
@@ -55,12 +59,14 @@ PREDICATES = {
 def values_for(attr, n_ids):
     if attr in ('id', 'parent_id'):
         return list(range(1, n_ids + 1))
+    if attr == 'weight':
+        return [0, 4, 5, 7, 9]
     return [x for x in POOL[attr] if x != '<absent>']
 
 
 @st.composite
 def one_filter(draw, n_ids):
-    attr = draw(st.sampled_from(['id', 'parent_id', 'name', 'resource', 'estimate', 'spent', 'milestone', 'tag', 'prio', 'days_in_status', 'opt_in', 'looks_like_x']))
+    attr = draw(st.sampled_from(['id', 'parent_id', 'name', 'resource', 'estimate', 'spent', 'milestone', 'tag', 'prio', 'days_in_status', 'opt_in', 'looks_like_x', 't', 'grade', 'weight']))
     suf = draw(st.sampled_from(SUFFIXES))
     vals = values_for(attr, n_ids)
     if suf in ('_is_none_', '_is_not_none_'):
@@ -102,10 +108,17 @@ def query_case(draw, max_tasks=8):
     spec = draw(population(max_tasks))
     n = len(spec['tasks'])
     recv = draw(st.sampled_from(['wbs.tasks', 'wbs.tasks', 'wbs.roots', 'children', 'all_children', 'query-result']))
-    if draw(st.integers(0, 5)) == 0:
+    k = draw(st.integers(0, 7))
+    if k == 0:
         flt = dict(pred=draw(st.sampled_from(sorted(PREDICATES))))
+    elif k == 1:
+        # "every filter holds": a predicate together with keyword filters
+        flt = dict(pred=draw(st.sampled_from(sorted(PREDICATES))), kw=draw(st.lists(one_filter(n), min_size=1, max_size=2)))
     else:
         flt = dict(kw=draw(st.lists(one_filter(n), min_size=1, max_size=3)))
+    flt['in_form'] = draw(st.sampled_from(['list', 'list', 'tuple', 'set', 'iterator', 'generator']))
+    if draw(st.integers(0, 3)) == 0:
+        spec['subclass'] = True
     action = draw(st.sampled_from(['query', 'query', 'query', 'assign', 'remove_all']))
     if action == 'remove_all':
         recv = draw(st.sampled_from(['wbs', 'wbs.roots', 'children', 'predecessors', 'successors']))
@@ -130,13 +143,20 @@ def query_case(draw, max_tasks=8):
 
 # ------------------------------------------------------------------------------ independent evaluator
 
-def attr_value(t_spec, attr, parent):
+def attr_value(t_spec, attr, parent, sub=False):
+    """value of an attribute as the user sees it; sub: the task is an instance of the user's Task subclass
+    (class-level default for `grade`, computed `weight`)"""
     if attr == 'id':
         return t_spec['id']
     if attr == 'parent_id':
         return parent
+    if attr == 'weight':
+        return len(t_spec.get('name') or '') if sub else None
     if attr in CUSTOM + ('color',):
-        return (t_spec.get('custom') or {}).get(attr)
+        c = t_spec.get('custom') or {}
+        if attr in c:
+            return c[attr]
+        return SUBCLASS_DEFAULTS.get(attr) if sub else None
     return t_spec[attr]
 
 
@@ -245,15 +265,23 @@ def check(case, exclude=True):
         if id(x) in ext_spec:
             return ext_spec[id(x)], None
         return m.t[x.id], m.parent[x.id]
-    if 'pred' in flt:
-        fn = PREDICATES[flt['pred']]
+    fn = PREDICATES[flt['pred']] if 'pred' in flt else None
+    Sub = specs.calc_task_class() if spec.get('subclass') else None
+    if 'kw' not in flt:
         exp = [i for i in lst_ids if fn(el_obj(i))]
         kwargs, key = {}, fn
         suffix_on_missing = False
     else:
-        key = None
+        key = fn
         kwargs = {}
+        form = flt.get('in_form') or 'list'
         for attr, suf, v in flt['kw']:
+            if suf in ('_in_', '_not_in_') and form != 'list':
+                # the collection may be any iterable - also one that can be read only once
+                try:
+                    v = tuple(v) if form == 'tuple' else set(v) if form == 'set' else iter(list(v)) if form == 'iterator' else (x for x in list(v))
+                except TypeError:
+                    pass
             kwargs[attr + suf] = v
         kws = [(a, s, v) for (a, s, v) in flt['kw']]
         # duplicates of the same keyword collapse to the last one (python kwargs)
@@ -266,7 +294,7 @@ def check(case, exclude=True):
             ok = True
             for a, s, v in last.values():
                 sp_, par_ = el_spec(i)
-                val = attr_value(sp_, a, par_)
+                val = attr_value(sp_, a, par_, Sub is not None and isinstance(el_obj(i), Sub))
                 if s in ('_lt_', '_le_', '_gt_', '_ge_', '_ne_') and not comparable(val, v):
                     unjudged = True
                 if s in ('_like_', '_not_like_') and val is not None and not isinstance(val, str):
@@ -279,14 +307,14 @@ def check(case, exclude=True):
                     ok = False
             if unjudged:
                 break
-            if ok:
+            if ok and (fn is None or fn(el_obj(i))):
                 exp.append(i)
     if unjudged:
         res.label('unjudged-mixed-types')
         return res
     before = snapshot(objs)
     action = case['action']
-    res.label('recv:' + recv, 'action:' + action, 'callable' if key else 'keywords:%d' % len(kwargs))
+    res.label('recv:' + recv, 'action:' + action, ('callable+keywords' if kwargs else 'callable') if key else 'keywords:%d' % len(kwargs))
     try:
         if action == 'remove_all':
             target = w if recv == 'wbs' else lst
